@@ -18,11 +18,12 @@ Containers(c) == IF c = "default" THEN {"stack", "vec", "array"} ELSE {"stack", 
 Uses == [ generichash |-> {"blake2b"}, generichash_incremental |-> {"blake2b"}, kdf |-> {"blake2b"}, kx_session |-> {"blake2b", "curve25519"},
           kx_seed_keypair |-> {"blake2b", "curve25519"}, sealed_box_nonce |-> {"blake2b", "curve25519"}, pwhash |-> {"blake2b"},
           sha512 |-> {"sha512"}, auth |-> {"sha512"}, sign |-> {"sha512", "curve25519"}, box_seed_keypair |-> {"sha512", "curve25519"},
-          box |-> {"curve25519"}, scalarmult |-> {"curve25519"} ]
+          box |-> {"curve25519"}, scalarmult |-> {"curve25519"}, container_resize |-> {"container"} ]
 Ops == DOMAIN Uses
 
 Backend(c, prim) == CASE prim = "blake2b"    -> IF c = "nightly_simd" THEN "blake2b_simd.rs" ELSE "blake2b_soft.rs"
                       [] prim = "sha512"     -> IF c = "nightly_simd" THEN "sha2 (asm)" ELSE "sha2"
+                      [] prim = "container"  -> IF c = "default" THEN "Vec, stack arrays" ELSE "Vec, stack arrays, page-aligned heap, locked regions"
                       [] prim = "curve25519" -> IF c = "nightly_simd" THEN "curve25519-dalek (simd backend when available)" ELSE "curve25519-dalek (serial)"
 
 \* the abstract value of a cell: by specification it mentions neither the configuration nor the container
